@@ -11,6 +11,7 @@ pub mod fam_n;
 pub mod fam_a;
 pub mod fam_u;
 pub mod fam_d;
+pub mod fam_t;
 
 #[cfg(not(kani))]
 pub mod registry;
